@@ -37,6 +37,8 @@ def classify(cfg, f):
             return None
         # the shape-aware reference model refuses a coordinate beyond the declared extent: same defect class as an
         # out-of-extent element found after the run
+    if not m and tag.startswith("F4v/") and f["kind"] == "wrong-value":
+        return "F11"      # coefficient 3: float projection
     if not m and tag.startswith("F2d/U") and f["kind"] in ("out-of-extent", "exception", "wrong-value"):
         return "F3"
     if not m:
